@@ -66,11 +66,14 @@ def hostile_strings():
 
 
 NON_AMINO = ["0", "01", "10", "011", "abc", "abd", "ab", "αβγ", "αβ", "αγγ", "汉字", "汉", "字汉字",
-             "\U0001F600a", "\U0001F600", "a\U0001F600b", "x-y", "x_y", "x.y", " ", "  ", " a"]
+             "\U0001F600a", "\U0001F600", "a\U0001F600b", "x-y", "x_y", "x.y", " ", "  ", " a",
+             "a\n", "\n", "ab\n", "a\tb", "ab\r"]
+# strings that differ only by a trailing NUL (numpy's fixed-width unicode drops it): only for functions that do not go through such arrays
+NUL_STRINGS = ["A\x00", "A", "AB\x00", "AB", "\x00", "", "A\x00\x00", "\x00A"]
 
 
 CONTAINERS = ["list", "tuple", "ndarray_U", "ndarray_O", "series_default", "series_shifted",
-              "series_permuted", "series_string", "series_duplicated"]
+              "series_permuted", "series_string", "series_duplicated", "series_range_step2"]
 
 
 def make_container(name, xs):
@@ -102,6 +105,8 @@ def make_container(name, xs):
         return pd.Series(xs, index=idx, dtype=object)
     if name == "series_string":
         return pd.Series(xs, index=[f"r{i}" for i in range(n)], dtype=object)
+    if name == "series_range_step2":
+        return pd.Series(xs, index=pd.RangeIndex(0, 2 * n, 2), dtype=object)       # what df[col].iloc[::2] carries
     if name == "series_duplicated":
         return pd.Series(xs, index=[i // 2 for i in range(n)], dtype=object)
     raise KeyError(name)
